@@ -154,6 +154,7 @@ def probe(ctx, cal, m, cfg, ns, stride, rng, sb, light=False):
             # other spellings of the same arithmetic: '+0b' / '-0b' are adjust following / previous, a compound tenor applies its parts left to right,
             # a list / tuple / dict of dates is adjusted member by member
             mon['calendar_dt_bump_b'] += 1
+            sb.reset()
             g0, g1 = cal.dt_bump(t, '+0b'), cal.dt_bump(t, '-0b')
             if g0 != m.adjust(t, 'f') or g1 != m.adjust(t, 'p'):
                 ctx.fail('calendar_dt_bump_b', "cal.dt_bump(%s,'+0b') = %s, '-0b' = %s; adjust following / previous give %s / %s; cfg=%s" % (t, g0, g1, m.adjust(t, 'f'), m.adjust(t, 'p'), _brief(cfg)))
@@ -173,6 +174,7 @@ def probe(ctx, cal, m, cfg, ns, stride, rng, sb, light=False):
             others = [o for o in others if lo <= o <= hi]
             for a in ('f', 'p', None):
                 mon['adjust_fpm'] += 1
+                sb.reset()
                 exp = [m.adjust(o, a or adj) for o in others]
                 gl, gt, gd = cal.adjust(list(others), a), cal.adjust(tuple(others), a), cal.adjust({str(i): o for i, o in enumerate(others)}, a)
                 if gl != exp or gt != tuple(exp) or gd != {str(i): e for i, e in enumerate(exp)} or type(gl) is not list or type(gt) is not tuple or type(gd) is not dict:
@@ -241,7 +243,7 @@ def run_case(case, ctx):
     reg = {}
     codes = [Calendar.add, Calendar.adjust]
     populated = set()
-    with StepBudget(codes, 4000) as sb:
+    with StepBudget(codes, 30000) as sb:
         for si, step in enumerate(case['steps']):
             cfg = step['cfg']
             key = 'verif-%d-%s' % (_COUNTER[0], step['key'])
@@ -279,6 +281,20 @@ def run_case(case, ctx):
             if set(cal.holidays.keys()) != m.hol or set(cal.weekend) != m.weekend or cal.t0 != m.t0 or cal.t1 != m.t1:
                 ctx.fail('registry_reflects_last_registration', 'calendar(%r) holds %d holidays weekend %s; last registered %d holidays weekend %s' % (key, len(cal.holidays), cal.weekend, len(m.hol), cfg['weekend']))
                 return
+            # the very first question put to a freshly registered calendar (nothing has built its index yet): bdays(t, add(t, +-1)) from a non-business day
+            lo_, hi_ = m.t0 + DAY * 150, m.t1 - DAY * 150
+            nonb = [d_ for d_ in (lo_ + DAY * i_ for i_ in range((hi_ - lo_).days)) if not m.is_b(d_)]
+            if nonb:
+                ends = [d_ for d_ in nonb if (d_ + DAY * 3).month != d_.month or (d_ - DAY * 3).month != d_.month]
+                t_ = rng.choice(ends) if ends and rng.random() < 0.5 else rng.choice(nonb)
+                n_ = rng.choice([1, -1])
+                sb.reset()
+                ctx.monitors['bdays_inverse_of_add'] += 1
+                st_, got_ = ctx.call(lambda: cal.bdays(t_, cal.add(t_, n_)))
+                if st_ != 'ok' or got_ != n_:
+                    ctx.fail('bdays_inverse_of_add', 'first call on a freshly registered calendar: bdays(%s, add(t, %d)) = %s %r; cfg=%s' % (t_, n_, st_, got_, _brief(cfg)))
+                    return
+                ctx.cls('first_call_on_fresh_calendar')
             if not probe(ctx, cal, m, cfg, ns, case['stride'], rng, sb):
                 return
             populated.add(key)
@@ -305,8 +321,17 @@ def run_registry_light(case, ctx):
     key = 'verif-light-%d' % _COUNTER[0]
     base = datetime.datetime(2021, 3, 1)
     try:
+        shared = None
         for step in case['steps']:
             hol = [base + DAY * i for i in step['hol']]
+            if case.get('same_list'):
+                # the caller keeps ONE holiday list, edits it in place and registers it again: the key reflects the list as it is now
+                if shared is None:
+                    shared = list(hol)
+                else:
+                    shared[:] = hol
+                hol = shared
+                ctx.cls('registry_light:same_list_edited_in_place')
             wk = step.get('weekend')
             if step['how'] == 'positional':
                 cal = calendar(key, hol) if wk is None else calendar(key, hol, wk)
@@ -362,6 +387,11 @@ def gen_cfg(rng):
         for i in range(ln):
             hol.add(start + DAY * i)
         crosses = True
+    if rng.random() < 0.15:
+        # a closure of more than a month (a market shut for weeks on end): one run of consecutive non-business days
+        start = t0 + DAY * rng.randrange(200, 450)
+        for i in range(rng.randint(33, 55)):
+            hol.add(start + DAY * i)
     for _ in range(rng.choice([0, 3])):
         d = t0 + DAY * rng.randrange((t1 - t0).days)
         while d.weekday() != 4:
@@ -400,7 +430,13 @@ def gen_light(rng):
     for i in range(rng.randint(2, 4)):
         hol = sorted(rng.sample(range(0, 36), rng.choice([0, 0, 1, 3, 8])))
         steps.append({'hol': hol, 'weekend': rng.choice([None, None, [5, 6], [4, 5], [6], []]), 'how': rng.choice(['positional', 'keyword'])})
-    return {'kind': 'light', 'steps': steps}
+    case = {'kind': 'light', 'steps': steps}
+    if rng.random() < 0.4:
+        case['same_list'] = True
+        if rng.random() < 0.7:
+            for st_ in steps[1:]:
+                st_['weekend'], st_['how'] = steps[0]['weekend'], steps[0]['how']      # only the list changed between the registrations
+    return case
 
 
 def run(spec, ctx):
